@@ -64,7 +64,7 @@ def make_units(tier):
                         ds = [dict(items[t][1]) for t in trip]
                         for d, tg in zip(ds, 'ABC'):
                             d['tag'] = tg
-                        units.append({'name': 'triple', 'inters': ds, 'flavour': flavour, 'fs': fs, 'bound': 1})
+                        units.append({'name': 'triple', 'inters': ds, 'flavour': flavour, 'fs': fs, 'bound': 1, 'shard': [0, 1]})
     return units
 
 
